@@ -18,7 +18,7 @@ from vlib.core import exc_site, fmt_exc
 PROPERTY = "C02"
 LEVEL = "exploration"
 CLAIM = {
-    "text": "Exploration by runtime monitoring with an executable sequential model: all operation sequences up to a depth bound (quick 3, thorough 4) over {seek(o,0), seek(d,1), cread(n), creadinto(n)} on three tiny multi-file 8-bit streams, seeded random histories (length 40/200) over 1-3 files at every depth, and every (start,nsamps) pair for read_block, each compared step by step with a bytes model (content, count, position, raise/no-raise). Held = no divergence on the histories listed in the evidence. Streams include 'ragged' members (a data section ending in an incomplete sample: whole stray items before the next file). The thorough tier also runs the repository's own test-suite with a byte-array shadow model attached to every FileReader (position and content after every seek/cread/creadinto). Rounds 7-8 added: histories that go on after a refused over-long counted read (absolute seek, then further operations), a second reader on the same files used in turn and closed mid-history, and read_block repeated after the caller overwrote the block it was given.",
+    "text": "Exploration by runtime monitoring with an executable sequential model: all operation sequences up to a depth bound (quick 3, thorough 4) over {seek(o,0), seek(d,1), cread(n), creadinto(n)} on three tiny multi-file 8-bit streams, seeded random histories (length 40/200) over 1-3 files at every depth, and every (start,nsamps) pair for read_block, each compared step by step with a bytes model (content, count, position, raise/no-raise). Held = no divergence on the histories listed in the evidence. Streams include 'ragged' members (a data section ending in an incomplete sample: whole stray items before the next file). The thorough tier also runs the repository's own test-suite with a byte-array shadow model attached to every FileReader (position and content after every seek/cread/creadinto). Rounds 7-8 added: histories that go on after a refused over-long counted read (absolute seek, then further operations), a second reader on the same files used in turn and closed mid-history, and read_block repeated after the caller overwrote the block it was given. Round 9 added: a block requested right after a plan that followed the preceding block, and creadinto into equally long slices of one staging buffer.",
     "design_ref": "DESIGN.md section 3 (C02)",
     "note": "Trusted: CPython bytes/int semantics as the model, vlib/sigfile.py encoder. A seek to exactly end-of-stream and nsamps=0 are unspecified by the statement and accepted either way (counted). A history ends at the first operation that is required to raise.",
     "technique": "runtime monitoring: operation-history replay against an executable byte-array model (lattice + random)",
